@@ -68,6 +68,7 @@ func runC04(c *Ctx) {
 	ruleSendGuard(c, a, "CREATE")
 	ruleBuffers(c, a, "OWNBUF")
 	ruleReplyAddr(c, a)
+	ruleLookup(c, "LOOKUP")
 	ruleTeardown(c, "TEARDOWN")
 	ruleSoleDeleter(c)
 }
